@@ -218,3 +218,206 @@ def _copy_and_compare(rp, variant, workdir, rc, mo, hist, cls, blobs, opts):
             dest.close()
         except Exception:
             pass
+
+
+# ======================================================================================================
+# TLC runs whose outcome may be a violated liveness property (zv.tlc.run does not know TLC's wording
+# "Temporal property X was violated")
+
+def run_tlc(spec, cfg, wd, workers=4, dump=None, timeout=600, extra=()):
+    import re
+    import subprocess
+    import time
+    from .. import tlaparse, tlc
+    os.makedirs(wd, exist_ok=True)
+    spec_path = tlc._prepare(spec, wd)
+    cmd = tlc._java_cmd() + ['-workers', str(workers), '-metadir', os.path.join(wd, 'meta-' + os.path.basename(cfg)), '-noGenerateSpecTE']
+    if dump:
+        cmd += ['-dump', 'dot', dump]
+    cmd += list(extra) + ['-config', cfg, spec_path]
+    e = dict(os.environ)
+    e.pop('JAVA_TOOL_OPTIONS', None)
+    t0 = time.time()
+    try:
+        p = subprocess.run(cmd, cwd=wd, env=e, stdout=subprocess.PIPE, stderr=subprocess.STDOUT, text=True, errors='replace', timeout=timeout)
+    except subprocess.TimeoutExpired as ex:
+        raise tlc.TLCError('TLC timed out after %ss on %s' % (timeout, spec)) from ex
+    r = tlc.TLCResult()
+    r.wall_s = time.time() - t0
+    r.output = out = p.stdout
+    m = None
+    for m in tlc._RE_STATS.finditer(out):
+        pass
+    if m:
+        r.states_generated, r.distinct = int(m.group(1)), int(m.group(2))
+    m = tlc._RE_DEPTH.search(out)
+    if m:
+        r.depth = int(m.group(1))
+    mt = re.search(r'Error: Temporal property (\S+) was violated', out) or re.search(r'Error: Temporal properties were violated', out)
+    mi = tlc._RE_INV.search(out)
+    if mi:
+        r.violation = mi.group(1)
+    elif mt:
+        r.violation = mt.group(1) if mt.groups() else 'temporal'
+    if r.violation:
+        r.trace = tlaparse.parse_error_trace(out)
+        m = re.search(r'^Back to state (\d+)', out, re.M)
+        r.back_to = int(m.group(1)) if m else None
+        r.stuttering = 'Stuttering' in out
+        return r
+    if 'Model checking completed. No error has been found' in out:
+        r.ok = True
+        return r
+    raise tlc.TLCError('TLC failed on %s (exit %s):\n%s' % (spec, p.returncode, out[-4000:]))
+
+
+# ======================================================================================================
+# (c) the scan() transcription on byte files
+
+class Hang(BaseException):
+    """the call under the watchdog does not terminate"""
+
+
+class Watchdog:
+    """wall-clock watchdog (main thread of a worker process)"""
+
+    def __init__(self, seconds):
+        self.seconds = seconds
+
+    def _fire(self, signum, frame):
+        raise Hang('no return within %.0f s' % self.seconds)
+
+    def __enter__(self):
+        self.old = signal.signal(signal.SIGALRM, self._fire)
+        signal.setitimer(signal.ITIMER_REAL, self.seconds)
+
+    def __exit__(self, *a):
+        signal.setitimer(signal.ITIMER_REAL, 0)
+        signal.signal(signal.SIGALRM, self.old)
+        return False
+
+
+class StepFile:
+    """File object handed to scan(): reads return at most `chunk` bytes (the model's CHUNK when scaled down), and
+    progress is watched: scan's outer loop is `f.seek(pos); f.read(8096)` with pos as its only state, so a third
+    read at an unchanged position, or more reads than the file has bytes, is a loop that never ends."""
+
+    def __init__(self, f, size, chunk=None):
+        self.f = f
+        self.size = size
+        self.chunk = chunk
+        self.reads = 0
+        self.last = None
+        self.same = 0
+
+    def seek(self, pos, whence=0):
+        return self.f.seek(pos, whence)
+
+    def tell(self):
+        return self.f.tell()
+
+    def read(self, n=-1):
+        p = self.f.tell()
+        self.reads += 1
+        if p == self.last:
+            self.same += 1
+            if self.same >= 2:
+                raise Hang('read at position %d for the third time in a row' % p)
+        else:
+            self.last, self.same = p, 0
+        if self.reads > 2 * self.size + 50:
+            raise Hang('more than %d reads' % (2 * self.size + 50))
+        if self.chunk is not None and (n < 0 or n > self.chunk) and n == 8096:
+            n = self.chunk
+        return self.f.read(n)
+
+
+def pattern_bytes(n, fill, dots):
+    b = bytearray((b'\0' if fill == 'zero' else b'\xff') * n)
+    for d in dots:
+        b[d] = 0x2e
+    return bytes(b)
+
+
+def real_scan(data, start, chunk, on_disk=None):
+    """-> result of the real fsrecover.scan on a file holding `data`: position | 0 | 'hang' | 'raised X'"""
+    import io
+    import ZODB.fsrecover as fr
+    if on_disk:
+        with open(on_disk, 'wb') as f:
+            f.write(data)
+        raw = open(on_disk, 'rb')
+    else:
+        raw = io.BytesIO(data)
+    f = StepFile(raw, len(data), None if chunk == 8096 else chunk)
+    try:
+        with Watchdog(10):
+            r = fr.scan(f, start)
+        return int(r)
+    except Hang:
+        return 'hang'
+    except Exception as ex:
+        return 'raised ' + type(ex).__name__
+    finally:
+        raw.close()
+
+
+_DOT_NODE = None
+
+
+def load_scan_graph(dot):
+    """the dumped state graph of ZRecoverScan -> {(n, fill, dots, start): result | 'hang'} for every initial state"""
+    import re
+    node = re.compile(r'^(-?\d+) \[label="((?:[^"\\]|\\.)*)"(?:,tooltip="(?:[^"\\]|\\.)*")?(,style = filled)?\]')
+    edge = re.compile(r'^(-?\d+) -> (-?\d+)')
+    var = {k: re.compile(r'/\\\\ %s = (?:\\")?([^\\]*)' % k) for k in ('result', 'n', 'fill', 'dots', 'start', 'phase')}
+    info, succ, inits = {}, {}, []
+    with open(dot) as f:
+        for line in f:
+            m = edge.match(line)
+            if m:
+                if m.group(1) != m.group(2):
+                    succ[m.group(1)] = m.group(2)
+                continue
+            m = node.match(line.rstrip('\n'))
+            if m:
+                lab = m.group(2)
+                ph = var['phase'].search(lab).group(1)
+                info[m.group(1)] = int(var['result'].search(lab).group(1)) if 'done' in ph else None
+                if m.group(3):
+                    d = var['dots'].search(lab).group(1).strip('{} ')
+                    key = (int(var['n'].search(lab).group(1)), var['fill'].search(lab).group(1),
+                           tuple(int(x) for x in d.split(',')) if d else (), int(var['start'].search(lab).group(1)))
+                    inits.append((m.group(1), key))
+    table = {}
+    for nid, key in inits:
+        seen = set()
+        cur = nid
+        while True:
+            if info[cur] is not None:
+                table[key] = info[cur]
+                break
+            if cur in seen or cur not in succ:
+                table[key] = 'hang'          # a cycle: no state with phase = "done" is reachable
+                break
+            seen.add(cur)
+            cur = succ[cur]
+    return table
+
+
+def scan_replay(job):
+    """job = (cases [(n, fill, dots, start, expected)], chunk, scratch dir) -> list of mismatches + counters"""
+    cases, chunk, wd = job
+    os.makedirs(wd, exist_ok=True)
+    out = {'n': 0, 'hangs': 0, 'found': 0, 'eof': 0, 'mismatch': []}
+    for i, (n, fill, dots, start, want) in enumerate(cases):
+        data = pattern_bytes(n, fill, dots)
+        got = real_scan(data, start, chunk, on_disk=os.path.join(wd, 'p.bin') if i % 16 == 0 else None)
+        out['n'] += 1
+        out['hangs'] += got == 'hang'
+        out['found'] += isinstance(got, int) and got > 0
+        out['eof'] += got == 0
+        if got != want:
+            out['mismatch'].append({'n': n, 'fill': fill, 'dots': list(dots), 'start': start, 'chunk': chunk, 'spec': want, 'impl': got})
+    shutil.rmtree(wd, ignore_errors=True)
+    return out
